@@ -31,7 +31,7 @@ ASSUMPTIONS = [
 PROBES = ["dirruns", "inputs_ge_3", "cross_file_var_ref", "stale_output_present", "repeat_run_checked", "enum_runs",
           "fault:non-utf8", "fault:empty", "fault:dir-named-css", "fault:dangling-link", "fault:unserialisable",
           "fault:eacces", "fault:eio", "fault:late-unserialisable", "fault:out-is-dir", "fault:eacces-out",
-          "fault_first", "fault_middle", "fault_last", "cm_named_input_present", "late_fault_defines_props_others_reference", "symlinked_stylesheet_input", "duplicate_content_files", "same_translucent_text_in_several_files", "bom_files",
+          "fault_first", "fault_middle", "fault_last", "cm_named_input_present", "late_fault_defines_props_others_reference", "symlinked_stylesheet_input", "duplicate_content_files", "same_translucent_text_in_several_files", "bom_files", "dirruns_in_one_process",
           "outputs_compared"]
 
 FAULT_KINDS = ("non-utf8", "empty", "dir-named-css", "dangling-link", "unserialisable", "eacces", "eio",
@@ -260,7 +260,7 @@ def generate(rseed, tier, idx):
         last = [s for s in steps if s["op"] == "dirrun"][-1]
         steps.append({"op": "dirrun", "target": last["target"], "settings": last["settings"],
                       "order_key": o.randrange(1 << 30), "faults": []})
-    return {"prop": ID, "tree": tree, "env": env, "steps": steps}
+    return {"prop": ID, "tree": tree, "env": env, "steps": steps, "inproc": g.random() < 0.2}
 
 
 # ---------------------------------------------------------------------------
@@ -426,8 +426,13 @@ def execute(trace):
             order_key = st.get("order_key")
             if st.get("order") is not None:
                 order_key = ("list", tuple("tree/" + x for x in st["order"]))
-            res = base.in_fork(_dir_exec, root, "tree/" + target if target != "." else "tree", st["settings"], env,
-                               order_key, st.get("faults", []), timeout=200)
+            if trace.get("inproc"):
+                # a long-lived process (watch mode, a wrapper script): all directory runs of this history share one interpreter
+                res = _dir_exec(root, "tree/" + target if target != "." else "tree", st["settings"], env, order_key, st.get("faults", []))
+                bump("dirruns_in_one_process")
+            else:
+                res = base.in_fork(_dir_exec, root, "tree/" + target if target != "." else "tree", st["settings"], env,
+                                   order_key, st.get("faults", []), timeout=200)
             after = seams.snapshot(tdir)
             steps_n += len(res["io"])
             bump("dirruns")
@@ -564,6 +569,10 @@ def shrink(trace):
     import copy
 
     steps = trace["steps"]
+    if trace.get("inproc"):
+        t = copy.deepcopy(trace)
+        t["inproc"] = False
+        yield t
     # drop steps (keep at least one dirrun)
     for i in range(len(steps)):
         t = copy.deepcopy(trace)
